@@ -272,7 +272,9 @@ def run(ctx):
                 if not is_seq:
                     continue
                 n8 += 1
-                single = any("len(" in norm(a) and norm(base) in norm(a) and ("== 1" in norm(a)) and pol for a, pol in guards_at(f, x))
+                from sa.util import canon_atom as _ca8
+                lt = f"len({norm(base)})"
+                single = any(_ca8(a, pol) in (("==", "1", lt, True), ("==", lt, "1", True)) for a, pol in guards_at(f, x) if not isinstance(a, ast.BoolOp))
                 c.ob("R8", single, f, f"handler-list-indexed:{norm(base)}",
                      "a single element is picked only when the list has exactly one" if single else
                      f"'{stmt_text(x)}' renders one element of an invoke handler list without a 'len(...) == 1' guard: the engine evaluates every "
